@@ -268,8 +268,12 @@ package boltz
 //@   requires 0 <= fieldType && fieldType <= 255
 //@   pure
 //@   ensures[tag-then-value] result != nil && str(result) == prepend(fieldType, str(value))
+// IsKeyPresent answers for exactly this key: the seek lands on the first key that is not smaller, and only an equal one counts
+// (a longer key with this one as a prefix does not)
 //@ func (*TypedBucket).IsKeyPresent
-//@   trusted reads through a bbolt cursor seek
+//@   props C03 C04 C05 C06 C09
+//@   requires bucket.Bucket != nil
+//@   assume enumKeys()
 //@   pure
 //@   ensures result == bktHas[bucket.Bucket][str(key)]
 
